@@ -57,6 +57,7 @@ structure Pend where
 deriving DecidableEq, Repr
 
 structure St where
+  lock : Nat := 0                               -- acquisition lock duration (ms) of the scenario
   batches : List Batch := []                    -- every wire batch, newest first
   acqs : List Acq := []                         -- acquisitions, newest first
   pend : List Pend := []
@@ -66,7 +67,11 @@ structure St where
   closing : List Nat := []
   closeErr : List (Nat × Nat) := []             -- (m, part): error callback while closing
   isClosed : List Nat := []
+  renewed : List (Nat × Nat × Nat) := []        -- (m, part, off): renewed through the API since the record was handed out
 deriving Repr
+
+/-- the monitor's initial state for a scenario with the given lock duration -/
+def init (lock : Nat) : St := { lock := lock }
 
 def covers (first last off : Nat) : Bool := decide (first ≤ off) && decide (off ≤ last)
 def isFinalTy (ty : Nat) : Bool := ty == 0 || ty == 1 || ty == 2 || ty == 3
@@ -78,9 +83,10 @@ def holder (s : St) (part off : Nat) : Option Acq :=
 def offsetsOf (b : Batch) : List Nat := (List.range (b.last + 1 - b.first)).map (· + b.first)
 
 /-- A final batch of member `m` covers an offset for which `m` has unsent final decisions, none of them of the
-batch's type. (The same offset can carry decisions of several deliveries; the request carries one of them.) -/
+batch's type. (The same offset can carry decisions of several deliveries; the request carries one of them. The
+releases a closing member sends for records it holds undecided or still buffered are not judged.) -/
 def typeDiffers (s : St) (m part first last ty : Nat) : Bool :=
-  (ty == 1 || ty == 2 || ty == 3) &&
+  (ty == 1 || ty == 2 || ty == 3) && !(ty == 2 && s.closing.contains m) &&
   s.pend.any (fun p => p.m == m && p.part == part && covers first last p.off && p.stage == 0 && !p.lost &&
     !(s.pend.any (fun q => q.m == m && q.part == part && q.off == p.off && q.stage == 0 && q.st == ty)))
 
@@ -108,6 +114,15 @@ def carry (ps : List Pend) (m rid part first last ty : Nat) : List Pend :=
   sent.map (fun p => if p.m == m && p.part == part && covers first last p.off && p.stage == 0
                      then { p with lost := true } else p)
 
+/-- The key of a second final acknowledgement: when every unbacked offset was renewed through the API since it was
+handed out, it is the window the code documents (the drained renew entry reads the terminal status the later
+`Ack` call stored, and that call's own entry sends it again). -/
+def twiceKey (s : St) (m part first last : Nat) : String :=
+  if (List.range (last + 1 - first)).all (fun i =>
+      s.pend.any (fun p => p.m == m && p.part == part && p.off == i + first && p.stage == 0) ||
+      s.renewed.contains (m, part, i + first))
+  then "C12.final-ack-twice-renew-window" else "C12.final-ack-twice"
+
 def check (s : St) : Ev → Option String
   | .delivered _ _ _ _ => none
   | .ack _ _ _ _ => none
@@ -120,19 +135,20 @@ def check (s : St) : Ev → Option String
     if first > last then some "C12.wire-batches-not-ascending"
     else match s.batches.find? (fun b => b.rid == rid && b.part == part) with
       | some b => if first ≤ b.last then some "C12.wire-batches-not-ascending" else
-          if unbacked s m part first last ty then some "C12.final-ack-twice" else
+          if unbacked s m part first last ty then some (twiceKey s m part first last) else
           if typeDiffers s m part first last ty then some "C12.wire-type-differs-from-ack" else none
       | none =>
-          if unbacked s m part first last ty then some "C12.final-ack-twice" else
+          if unbacked s m part first last ty then some (twiceKey s m part first last) else
           if typeDiffers s m part first last ty then some "C12.wire-type-differs-from-ack" else none
   | .wireRes m rid part code =>
     if code != 0 then none
     -- the broker said yes to a final ack of a record that another member holds (acquired strictly before the request
-    -- arrived, and that member has not sent a final acknowledgement for it since): such an ack cannot be honoured and
+    -- arrived, its lock not yet expired then,
+    -- and that member has not sent a final acknowledgement for it since): such an ack cannot be honoured and
     -- must be answered with an error
     else if (s.batches.filter (fun b => b.rid == rid && b.part == part && b.m == m && (b.ty == 1 || b.ty == 3))).any (fun b =>
         (offsetsOf b).any (fun o => match holder s part o with
-          | some a => a.m != m && decide (a.t < b.t) &&
+          | some a => a.m != m && decide (a.t < b.t) && decide (b.t < a.t + s.lock) &&
               !(s.batches.any (fun hb => hb.m == a.m && hb.part == part && covers hb.first hb.last o && isFinalTy hb.ty && decide (a.t ≤ hb.t)))
           | none => false)) then some "C12.ack-confirmed-for-record-held-by-another-member"
     else none
@@ -142,16 +158,17 @@ def check (s : St) : Ev → Option String
   | .closeStart _ => none
   | .closed m =>
     if s.openRecs.any (fun r => r.1 == m &&
-        !((s.batches.take (s.batches.length - r.2.2.2)).any (fun b => b.m == m && b.part == r.2.1 && covers b.first b.last r.2.2.1 && b.ty == 2)) &&
+        !((s.batches.take (s.batches.length - r.2.2.2)).any (fun b => b.m == m && b.part == r.2.1 && covers b.first b.last r.2.2.1 && (b.ty == 1 || b.ty == 2 || b.ty == 3))) &&
         !(s.closeErr.contains (m, r.2.1))) then some "C12.unacked-not-released-on-close" else none
   | .quiesce =>
     if s.pend.any (fun p => p.stage == 0 && !p.lost && s.isClosed.contains p.m) then some "C12.ack-never-sent" else none
 
 def apply (s : St) : Ev → St
   | .delivered m part off _ =>
-    { s with openRecs := (m, part, off, s.batches.length) :: s.openRecs.filter (fun r => !(r.1 == m && r.2.1 == part && r.2.2.1 == off)) }
+    { s with openRecs := (m, part, off, s.batches.length) :: s.openRecs.filter (fun r => !(r.1 == m && r.2.1 == part && r.2.2.1 == off)),
+             renewed := s.renewed.filter (fun r => !(r.1 == m && r.2.1 == part && r.2.2 == off)) }
   | .ack m part off st =>
-    if st == 4 then { s with uncalled := (m, part, false) :: s.uncalled }
+    if st == 4 then { s with uncalled := (m, part, false) :: s.uncalled, renewed := (m, part, off) :: s.renewed }
     else { s with openRecs := s.openRecs.filter (fun r => !(r.1 == m && r.2.1 == part && r.2.2.1 == off)),
                   pend := { m := m, part := part, off := off, st := st } :: s.pend,
                   uncalled := (m, part, false) :: s.uncalled }
@@ -194,6 +211,6 @@ def run : St → List Ev → Option St
     | some s' => run s' es
     | none => none
 
-def accepts (h : List Ev) : Bool := (run {} h).isSome
+def accepts (lock : Nat) (h : List Ev) : Bool := (run (init lock) h).isSome
 
 end Model.Share
